@@ -12,7 +12,8 @@ def run_property(chk, prog, select, extra_assumptions=()):
     chk.repo_hash = prog.repo_hash
     chk.assumptions += COMMON_ASSUMPTIONS + list(extra_assumptions)
     only = [a[5:] for a in sys.argv[1:] if a.startswith('only=')]
-    for T in tr.all_transitions():
+    import checks.htransitions as ht
+    for T in tr.all_transitions() + [ht.AckH(), ht.ModAckH(), ht.SeekTimeH(), ht.SeekSnapH(), ht.PullH()]:
         if only and T.name not in only:
             continue
         fs = select(T)
